@@ -93,6 +93,14 @@ impl ZXMachine {
 //@ end
 }
 
+// ---- std functions without a vstd spec (trusted, enumerated) ----
+pub assume_specification<T, U, F: FnOnce(T) -> U>[ Option::<T>::map_or ](o: Option<T>, default: U, f: F) -> (r: U)
+    requires o is Some ==> f.requires((o->Some_0,)),
+    ensures
+        o is None ==> r == default,
+        o is Some ==> f.ensures((o->Some_0,), r),
+;
+
 // ======================================================================
 // ZXMemory: view, well-formedness, C06 memory map
 // ======================================================================
@@ -335,6 +343,25 @@ impl KempstonJoy {
 //@ end
 }
 
+/// time after a contended wait of `n` T-states starting at total time `t`
+#[verifier::opaque]
+pub open spec fn c_then(m: ZXMachine, t: int, n: int) -> int {
+    t + ula_delay(m, t % frame_len(m)) + n
+}
+
+/// C04: end time of a port cycle that starts at total time `t`:
+/// N:1,C:3 / N:4 / C:1,C:3 / C:1,C:1,C:1,C:1
+pub open spec fn io_end(m: ZXMachine, hi_contended: bool, even: bool, t: int) -> int {
+    let t1 = if hi_contended { c_then(m, t, 1) } else { t + 1 };
+    if even {
+        c_then(m, t1, 3)
+    } else if hi_contended {
+        c_then(m, c_then(m, c_then(m, t1, 1), 1), 1)
+    } else {
+        t1 + 3
+    }
+}
+
 pub proof fn lemma_total_mod(pf: int, f: int, fc: int)
     requires 0 <= fc < f, 0 <= pf,
     ensures (pf * f + fc) % f == fc,
@@ -418,24 +445,6 @@ impl<H: Host> ZXController<H> {
         &&& self.current_port_7ffd == o.current_port_7ffd
     }
 
-    /// time after a contended wait of `n` T-states starting at total time `t`
-    pub open spec fn c_then(m: ZXMachine, t: int, n: int) -> int {
-        t + ula_delay(m, t % frame_len(m)) + n
-    }
-
-    /// C04: end time of a port cycle that starts at total time `t`:
-    /// N:1,C:3 / N:4 / C:1,C:3 / C:1,C:1,C:1,C:1
-    pub open spec fn io_end(m: ZXMachine, hi_contended: bool, even: bool, t: int) -> int {
-        let t1 = if hi_contended { Self::c_then(m, t, 1) } else { t + 1 };
-        if even {
-            Self::c_then(m, t1, 3)
-        } else if hi_contended {
-            Self::c_then(m, Self::c_then(m, Self::c_then(m, t1, 1), 1), 1)
-        } else {
-            t1 + 3
-        }
-    }
-
     #[verifier::external_body]
     pub fn frame_pos(&self) -> f64 { unimplemented!() }
 
@@ -458,6 +467,11 @@ impl<H: Host> ZXController<H> {
             final(self).passed_frames as int <= old(self).passed_frames as int + 1,
             final(self).passed_frames >= old(self).passed_frames,
             final(self).same_core(old(self)),
+//@ at 1 /self\.frame_clocks \+= clk/
+        proof {
+            let f = frame_len(self.machine); let pf = self.passed_frames as int;
+            assert((pf + 1) * f == pf * f + f) by(nonlinear_arith);
+        }
 //@ end
 
 //@ fn rustzx-core/src/zx/controller.rs impl <H:Host>ZXController<H>::frames_count props C05
@@ -490,20 +504,20 @@ impl<H: Host> ZXController<H> {
 //@ sig
         requires old(self).inv(), old(self).room(1),
         ensures final(self).inv(), final(self).same_core(old(self)),
-            final(self).total() == Self::c_then(old(self).machine, old(self).total(), 0),
+            final(self).total() == c_then(old(self).machine, old(self).total(), 0),
             final(self).passed_frames as int <= old(self).passed_frames as int + 1,
 //@ at 1 /let contention/
-        proof { lemma_total_mod(self.passed_frames as int, frame_len(self.machine), self.frame_clocks as int); }
+        proof { reveal(c_then); lemma_total_mod(self.passed_frames as int, frame_len(self.machine), self.frame_clocks as int); }
 //@ end
 
 //@ fn rustzx-core/src/zx/controller.rs impl <H:Host>ZXController<H>::do_contention_and_wait props C04
 //@ sig
         requires old(self).inv(), old(self).room(1), wait_time <= 16,
         ensures final(self).inv(), final(self).same_core(old(self)),
-            final(self).total() == Self::c_then(old(self).machine, old(self).total(), wait_time as int),
+            final(self).total() == c_then(old(self).machine, old(self).total(), wait_time as int),
             final(self).passed_frames as int <= old(self).passed_frames as int + 1,
 //@ at 1 /let contention/
-        proof { lemma_total_mod(self.passed_frames as int, frame_len(self.machine), self.frame_clocks as int); }
+        proof { reveal(c_then); lemma_total_mod(self.passed_frames as int, frame_len(self.machine), self.frame_clocks as int); }
 //@ end
 
 //@ fn rustzx-core/src/zx/controller.rs impl <H:Host>Z80BusforZXController<H>::wait_mreq props C04
@@ -512,9 +526,11 @@ impl<H: Host> ZXController<H> {
         ensures final(self).inv(), final(self).same_core(old(self)),
             // C04: a bus cycle carrying a contended address is delayed by the ULA, others are not
             final(self).total() == (if old(self).contended(addr) {
-                    Self::c_then(old(self).machine, old(self).total(), clk as int)
+                    c_then(old(self).machine, old(self).total(), clk as int)
                 } else { old(self).total() + clk as int }),
             final(self).passed_frames as int <= old(self).passed_frames as int + 2,
+//@ at 1 /match self\.machine/
+        proof { reveal(c_then); }
 //@ end
 
 //@ fn rustzx-core/src/zx/controller.rs impl <H:Host>Z80BusforZXController<H>::wait_no_mreq props C04
@@ -522,7 +538,7 @@ impl<H: Host> ZXController<H> {
         requires old(self).inv(), old(self).room(2), clk <= 16,
         ensures final(self).inv(), final(self).same_core(old(self)),
             final(self).total() == (if old(self).contended(addr) {
-                    Self::c_then(old(self).machine, old(self).total(), clk as int)
+                    c_then(old(self).machine, old(self).total(), clk as int)
                 } else { old(self).total() + clk as int }),
             final(self).passed_frames as int <= old(self).passed_frames as int + 2,
 //@ end
@@ -532,9 +548,11 @@ impl<H: Host> ZXController<H> {
         requires old(self).inv(), old(self).room(2),
         ensures final(self).inv(), final(self).same_core(old(self)),
             final(self).total() == (if old(self).contended(port) {
-                    Self::c_then(old(self).machine, old(self).total(), 1)
+                    c_then(old(self).machine, old(self).total(), 1)
                 } else { old(self).total() + 1 }),
             final(self).passed_frames as int <= old(self).passed_frames as int + 2,
+//@ at 1 /if self\.addr_is_contended/
+        proof { reveal(c_then); }
 //@ end
 
 //@ fn rustzx-core/src/zx/controller.rs impl <H:Host>ZXController<H>::io_contention_last props C04
@@ -542,13 +560,189 @@ impl<H: Host> ZXController<H> {
         requires old(self).inv(), old(self).room(3),
         ensures final(self).inv(), final(self).same_core(old(self)),
             final(self).total() + 1 == (
-                if port & 1 == 0 { Self::c_then(old(self).machine, old(self).total(), 3) }
+                if port & 1 == 0 { c_then(old(self).machine, old(self).total(), 3) }
                 else if old(self).contended(port) {
-                    Self::c_then(old(self).machine, Self::c_then(old(self).machine,
-                        Self::c_then(old(self).machine, old(self).total(), 1), 1), 1) }
+                    c_then(old(self).machine, c_then(old(self).machine,
+                        c_then(old(self).machine, old(self).total(), 1), 1), 1) }
                 else { old(self).total() + 3 }),
             final(self).passed_frames as int <= old(self).passed_frames as int + 3,
+//@ at 1 /if self\.machine\.port_is_contended/
+        proof { reveal(c_then); }
 //@ end
+
+//@ fn rustzx-core/src/zx/controller.rs impl <H:Host>ZXController<H>::write_7ffd props C06 C07
+//@ sig
+        requires old(self).inv(),
+        ensures
+            final(self).inv(),
+            // once locked (or on the 48K) every paging write is ignored
+            !old(self).paging_enabled ==> final(self).memory == old(self).memory
+                && final(self).current_port_7ffd == old(self).current_port_7ffd
+                && final(self).paging_enabled == old(self).paging_enabled
+                && final(self).screen_bank == old(self).screen_bank,
+            // an accepted write becomes the latch; the map follows from paging_inv; RAM/ROM contents untouched
+            old(self).paging_enabled ==> final(self).current_port_7ffd == val
+                && final(self).screen_bank == (if val & 0x08 == 0 { 5u8 } else { 7u8 })
+                && final(self).memory.rom@ == old(self).memory.rom@
+                && final(self).memory.ram@ == old(self).memory.ram@,
+            final(self).machine == old(self).machine,
+            final(self).frame_clocks == old(self).frame_clocks,
+            final(self).passed_frames == old(self).passed_frames,
+            final(self).mixer == old(self).mixer,
+            final(self).border_color == old(self).border_color,
+            final(self).io_extender == old(self).io_extender,
+            final(self).kempston == old(self).kempston, final(self).mouse == old(self).mouse,
+            final(self).keyboard == old(self).keyboard, final(self).keyboard_extended == old(self).keyboard_extended,
+            final(self).keyboard_sinclair == old(self).keyboard_sinclair,
+//@ at 1 /self\.memory\.remap\(3/
+        proof {
+            assert((val & 0x07) < 8) by(bit_vector);
+            assert(((val >> 4) & 0x01) < 2) by(bit_vector);
+        }
+//@ end
+
+//@ fn rustzx-core/src/zx/controller.rs impl <H:Host>ZXController<H>::read_7ffd props C06 C13
+//@ ret r
+//@ sig
+        ensures r == self.current_port_7ffd,
+//@ end
+
+//@ fn rustzx-core/src/zx/controller.rs impl <H:Host>Z80BusforZXController<H>::read_internal props C06
+//@ ret r
+//@ sig
+        requires old(self).inv(),
+        ensures r == old(self).memory.peek(addr), final(self).memory == old(self).memory,
+            final(self).same_core(old(self)), final(self).frame_clocks == old(self).frame_clocks,
+            final(self).passed_frames == old(self).passed_frames,
+//@ end
+
+//@ fn rustzx-core/src/zx/controller.rs impl <H:Host>Z80BusforZXController<H>::write_internal props C06
+//@ sig
+        requires old(self).inv(),
+        ensures final(self).inv(),
+            final(self).memory.map == old(self).memory.map,
+            final(self).memory.rom@ == old(self).memory.rom@,
+            forall|b: u16| #[trigger] final(self).memory.peek(b) == (
+                if old(self).memory.is_ram(addr) && old(self).memory.cell(b) == old(self).memory.cell(addr) { data }
+                else { old(self).memory.peek(b) }),
+            final(self).frame_clocks == old(self).frame_clocks,
+            final(self).passed_frames == old(self).passed_frames,
+            final(self).current_port_7ffd == old(self).current_port_7ffd,
+            final(self).paging_enabled == old(self).paging_enabled,
+            final(self).machine == old(self).machine,
+//@ end
+
+//@ fn rustzx-core/src/zx/controller.rs impl <H:Host>ZXController<H>::set_border_color props C07 C09
+//@ sig
+        ensures final(self).border_color == color,
+            final(self).machine == old(self).machine, final(self).memory == old(self).memory,
+            final(self).mixer == old(self).mixer, final(self).io_extender == old(self).io_extender,
+            final(self).frame_clocks == old(self).frame_clocks, final(self).passed_frames == old(self).passed_frames,
+            final(self).paging_enabled == old(self).paging_enabled,
+            final(self).current_port_7ffd == old(self).current_port_7ffd,
+            final(self).screen_bank == old(self).screen_bank,
+            final(self).kempston == old(self).kempston, final(self).mouse == old(self).mouse,
+            final(self).keyboard == old(self).keyboard, final(self).keyboard_extended == old(self).keyboard_extended,
+            final(self).keyboard_sinclair == old(self).keyboard_sinclair,
+//@ end
+
+//@ fn rustzx-core/src/zx/controller.rs impl <H:Host>ZXController<H>::select_ay_reg props C07
+//@ sig
+        ensures final(self).mixer.ay.wf(), final(self).mixer.ay.current_reg == (value & 0x0F) as usize,
+            final(self).mixer.ay.regs == old(self).mixer.ay.regs, final(self).mixer.beeper == old(self).mixer.beeper,
+            final(self).same_but_mixer(old(self)),
+//@ end
+
+//@ fn rustzx-core/src/zx/controller.rs impl <H:Host>ZXController<H>::write_ay_port props C07
+//@ sig
+        requires old(self).mixer.ay.wf(),
+        ensures final(self).mixer.ay.wf(), final(self).mixer.ay.current_reg == old(self).mixer.ay.current_reg,
+            final(self).mixer.ay.regs@ == old(self).mixer.ay.regs@.update(old(self).mixer.ay.current_reg as int, value),
+            final(self).mixer.beeper == old(self).mixer.beeper,
+            final(self).same_but_mixer(old(self)),
+//@ end
+
+//@ fn rustzx-core/src/zx/controller.rs impl <H:Host>Z80BusforZXController<H>::write_io props C07 C04
+//@ sig
+        requires old(self).inv(), old(self).room(8),
+        ensures final(self).inv(),
+            // C04: port-cycle timing
+            final(self).total() == io_end(old(self).machine, old(self).contended(port), port & 1 == 0, old(self).total()),
+            final(self).machine == old(self).machine,
+            final(self).kempston == old(self).kempston, final(self).mouse == old(self).mouse,
+            final(self).keyboard == old(self).keyboard, final(self).keyboard_extended == old(self).keyboard_extended,
+            final(self).keyboard_sinclair == old(self).keyboard_sinclair,
+            // C07: a host extender receives exactly the ports it claims ...
+            old(self).ext_claims(port) ==> final(self).io_extender is Some
+                && final(self).io_extender->Some_0.log() == old(self).io_extender->Some_0.log().push((true, port, data)),
+            !old(self).ext_claims(port) ==> final(self).io_extender == old(self).io_extender,
+            // ... and when it is the only device selected nothing else is touched
+            old(self).ext_claims(port) && old(self).ndev_w(port) == 1 ==> final(self).dev_same(old(self), true, true, true, true),
+            // no device selected: nothing but time changes
+            old(self).ndev_w(port) == 0 ==> final(self).dev_same(old(self), true, true, true, true),
+            // ULA: border colour, MIC, speaker
+            sel_ula(port) && old(self).ndev_w(port) == 1 ==> final(self).dev_same(old(self), false, true, true, true)
+                && final(self).border_color == ZXColor::of_bits(data & 0x07)
+                && final(self).mixer.beeper.mic == (data & 0x08 != 0)
+                && final(self).mixer.beeper.ear == (data & 0x10 != 0),
+            // AY register select
+            sel_ay_select(port) && old(self).ndev_w(port) == 1 ==> final(self).dev_same(old(self), true, false, true, true)
+                && final(self).mixer.ay.current_reg == (data & 0x0F) as usize
+                && final(self).mixer.ay.regs == old(self).mixer.ay.regs,
+            // AY data write
+            sel_ay_data(port) && old(self).ndev_w(port) == 1 ==> final(self).dev_same(old(self), true, false, true, true)
+                && final(self).mixer.ay.current_reg == old(self).mixer.ay.current_reg
+                && final(self).mixer.ay.regs@ == old(self).mixer.ay.regs@.update(old(self).mixer.ay.current_reg as int, data),
+            // 128K paging latch (accepted unless locked; RAM/ROM contents never change)
+            sel_paging(old(self).machine, port) && old(self).ndev_w(port) == 1 ==> final(self).dev_same(old(self), true, true, false, true),
+            sel_paging(old(self).machine, port) && old(self).ndev_w(port) == 1 ==>
+                final(self).memory.rom@ == old(self).memory.rom@ && final(self).memory.ram@ == old(self).memory.ram@,
+            sel_paging(old(self).machine, port) && old(self).ndev_w(port) == 1 && old(self).paging_enabled ==>
+                final(self).current_port_7ffd == data,
+            sel_paging(old(self).machine, port) && old(self).ndev_w(port) == 1 && !old(self).paging_enabled ==>
+                final(self).current_port_7ffd == old(self).current_port_7ffd && final(self).memory == old(self).memory,
+            // on the 48K the paging latch does not exist
+            is48(old(self).machine) ==> final(self).memory == old(self).memory,
+//@ closure 1 /\|e\|/ vx_r: bool
+                ensures vx_r == e.claims(port),
+//@ at 1 /self\.set_border_color/
+            proof { assert(data & 0x07 <= 7) by(bit_vector); }
+//@ after 1 /self\.write_7ffd\(data\);/
+            proof {
+                assert(port & 0x8002 == 0 ==> port < 0x8000) by(bit_vector);
+                assert(self.contended(port) == old(self).contended(port));
+            }
+//@ end
+
+    pub open spec fn ext_claims(&self, port: u16) -> bool {
+        self.io_extender is Some && self.io_extender->Some_0.claims(port)
+    }
+
+    /// number of devices a port *write* selects (C07 speaks about ports where this is 1)
+    pub open spec fn ndev_w(&self, port: u16) -> int {
+        (if self.ext_claims(port) { 1int } else { 0 }) + (if sel_ula(port) { 1int } else { 0 })
+            + (if sel_ay_select(port) { 1int } else { 0 }) + (if sel_ay_data(port) { 1int } else { 0 })
+            + (if sel_paging(self.machine, port) { 1int } else { 0 })
+    }
+
+    /// device state unchanged, selectively: ULA outputs / AY / paging+memory / extender
+    pub open spec fn dev_same(&self, o: &Self, ula: bool, ay: bool, paging: bool, ext: bool) -> bool {
+        &&& ula ==> self.border_color == o.border_color && self.mixer.beeper == o.mixer.beeper
+        &&& ay ==> self.mixer.ay == o.mixer.ay
+        &&& paging ==> self.memory == o.memory && self.current_port_7ffd == o.current_port_7ffd
+                && self.paging_enabled == o.paging_enabled && self.screen_bank == o.screen_bank
+        &&& ext ==> true
+    }
+
+    pub open spec fn same_but_mixer(&self, o: &Self) -> bool {
+        &&& self.machine == o.machine && self.memory == o.memory && self.kempston == o.kempston
+        &&& self.mouse == o.mouse && self.io_extender == o.io_extender
+        &&& self.keyboard == o.keyboard && self.keyboard_extended == o.keyboard_extended
+        &&& self.keyboard_sinclair == o.keyboard_sinclair && self.border_color == o.border_color
+        &&& self.frame_clocks == o.frame_clocks && self.passed_frames == o.passed_frames
+        &&& self.paging_enabled == o.paging_enabled && self.screen_bank == o.screen_bank
+        &&& self.current_port_7ffd == o.current_port_7ffd
+    }
 }
 
 } // verus!
